@@ -322,7 +322,18 @@ def r5_entry_points(ctx):
         raise AnalysisError("C08.R5", "anchor vanished: StatelessDistributionFamily")
     for name, forms in ENTRY_POINTS.items():
         f = ix.func(DIST, f"StatelessDistributionFamily.{name}", "C08.R5")
-        text = "; ".join(Canon(f.node).lines(True, True))
+        cn_ = Canon(f.node)
+        text = "; ".join(cn_.lines(True, True))
+        if name == "regularization" and text not in forms:
+            # the same two arms written the other way round (`if not isinstance(...)`): decided on control dependence, not on the order of the lines
+            from ..cfg import CFG
+            cfg_ = CFG(f.node)
+            arms = {}
+            for n_, st_ in cfg_.stmt.items():
+                if isinstance(st_, (ast.Assign, ast.Return)) and st_.value is not None and "_nll(" in U(st_.value):
+                    arms[cn_.text(st_.value, False, cn_.last_order)] = [(cn_.text(cfg_.stmt[h_].test, False, cn_.last_order), lab_) for h_, lab_ in cfg_.if_guards(n_)]
+            if arms == {"$0._nll(WeightedTensor($1), *$args)": [("isinstance($1, Tensor)", True)], "$0._nll($1, *$args)": [("isinstance($1, Tensor)", False)]}:
+                forms = forms | {text}
         ctx.form("C08.R5", f, f.node, text, forms, [f"$0._{'nll' if name == 'regularization' else name}("], f"{name} hands over to the family's `_nll*` implementation",
                  f"{name} no longer hands its arguments to the `_nll*` implementation of the family", construct=f"dispatcher {name}")
     x, loc, scale = sp.Symbol("x", real=True), sp.Symbol("loc", real=True), sp.Symbol("scale", positive=True)
